@@ -3,21 +3,24 @@ inside Coq (vm_compute on Model/CopyFault.fstep) and compare with what the extra
 printed -- a cross-check of the extraction and of ml/c02_main.ml's parsing."""
 import os, subprocess
 
-_PRELUDE = """From Oras Require Import Base.Prelude Generated.GC02 Model.CopySpec Model.CopyTop Model.CopyFault.
+_PRELUDE = """From Oras Require Import Base.Prelude Generated.GC02 Model.CopySpec Model.CopyTop Model.CopyOpt Model.CopyFault Model.CopyFaultOpt.
 Local Open Scope nat_scope.
 Definition mkG (n : nat) (succs : list (list nat)) (fl ism : list bool) (dk : list nat) : graph :=
   mkGraph n (fun x => nth x succs []) (fun x => nth x fl false) (fun x => nth x ism false)
           (fun x => if Nat.ltb x n then nth x dk 0 else 1000000 + x).
-Fixpoint frun_cl (g : graph) (c : cfg) (ext : bool) (fs : fstate) (tr : list fevent) (cl : bool) : option (fstate * bool) :=
+Definition cs_of (b : list bool) : cbset :=
+  fun k => match k with CPre => nth 0 b true | CPost => nth 1 b true | CSkip => nth 2 b true
+                      | CMounted => nth 3 b true | CMountFrom => nth 4 b true end.
+Fixpoint frun_cl (cs : cbset) (g : graph) (c : cfg) (ext : bool) (fs : fstate) (tr : list fevent) (cl : bool) : option (fstate * bool) :=
   match tr with
   | [] => Some (fs, cl)
-  | e :: tr' => match fstep g c ext fs e with
-                | Some fs' => frun_cl g c ext fs' tr' (cl && closedb g (dst (fb fs')))
+  | e :: tr' => match fstep_opt cs g c ext fs e with
+                | Some (fs', _) => frun_cl cs g c ext fs' tr' (cl && closedb g (dst (fb fs')))
                 | None => None
                 end
   end.
-Definition eval (g : graph) (c : cfg) (ext : bool) (d0 : list node) (tr : list fevent) (n0 : nat) :=
-  match frun_cl g c ext (finit c ext d0) tr (closedb g d0) with
+Definition eval (cs : cbset) (g : graph) (c : cfg) (ext : bool) (d0 : list node) (tr : list fevent) (n0 : nat) :=
+  match frun_cl cs g c ext (finit c ext d0) tr (closedb g d0) with
   | None => None
   | Some (fs, cl) =>
       Some (returned (fb fs), tag (fb fs),
@@ -55,6 +58,8 @@ def _event(tok):
     if k == "RT": return "Ev (Ret %s)" % _b(p[1] == "1")
     if k == "XX": return "ExX %s" % p[1]
     if k == "SX": return "SFX %s" % p[1]
+    if k == "SR": return "SRX %s" % p[1]
+    if k == "FX": return "FSX %s" % p[1]
     if k == "PX": return "PuX %s %s %s" % (p[1], _b(p[2] == "1"), _b(p[3] == "1"))
     if k == "TX": return "TagX %s %s" % (p[1], _b(p[2] == "1"))
     if k == "MX": return "MtX %s %s" % (p[1], _b(p[2] == "1"))
@@ -70,7 +75,10 @@ def _goals(case, out):
     if len(f) < 7:
         return None
     n, k, api, roots, nodes, d0, trace = f[0], f[1], f[2], f[3], f[4], f[5], f[6]
-    mount = api.endswith("m")
+    api, _, bits = api.partition("/")
+    bits = bits or "11111"
+    mount = "m" in api[1:]
+    cachedroot = "c" in api[1:]
     api = api[0]
     cmode = {"g": "MGraph", "x": "MGraph", "t": "MTagger", "r": "MRefPush"}[api]
     specs = nodes.split(";")
@@ -82,6 +90,8 @@ def _goals(case, out):
         fl.append(_b("f" in a)); ism.append(_b("m" in a)); dk.append(b); succs.append(_nats(c))
     evs = []
     for t in ([] if trace == "-" else trace.split(",")):
+        if t.startswith("DS."):
+            continue    # destination snapshots are checked by the OCaml runner only
         e = _event(t)
         if e is None:
             return None
@@ -99,8 +109,10 @@ def _goals(case, out):
 
     def goal(nn, succs, fl, ism, dk, root, xroots, ext):
         g = "(mkG %d [%s] [%s] [%s] [%s])" % (nn, "; ".join(succs), "; ".join(fl), "; ".join(ism), "; ".join(dk))
-        c = "(mkCfg (eff_K defaultConcurrency (%s)%%Z) %s %s %s true [] %s)" % (k, cmode, root, _b(mount), _nats(",".join(xroots)))
-        return "eval %s %s %s %s [%s] %s = %s" % (g, c, _b(ext), _nats(d0), "; ".join(evs), n, exp)
+        c = "(mkCfg (eff_K defaultConcurrency (%s)%%Z) %s %s %s true %s %s)" % (
+            k, cmode, root, _b(mount), "[%s]" % root if cachedroot else "[]", _nats(",".join(xroots)))
+        cs = "(cs_of [%s])" % "; ".join(_b(ch == "1") for ch in bits)
+        return "eval %s %s %s %s %s [%s] %s = %s" % (cs, g, c, _b(ext), _nats(d0), "; ".join(evs), n, exp)
     if api == "x":
         n0 = int(n)
         return [goal(n0 + 1, succs + [_nats(roots)], fl + ["false"], ism + ["false"], dk + [str(n0)], str(n0), [], True),
@@ -110,7 +122,7 @@ def _goals(case, out):
 
 def vm_sample():
     def hook(d, tier, coq, build):
-        want = 300 if tier == "thorough" else 40
+        want = 300 if tier == "thorough" else 30
         outs = {}
         with open(os.path.join(d, "model.txt")) as f:
             for l in f:
